@@ -127,6 +127,29 @@ CORPUS_SETS = [
         SVG_HEAD + '<path d="M30,20 L40,20 L38,80 L32,80 Z" fill="red"/><path d="M30,90 L40,90 L40,100 L30,100 Z" fill="red"/>'
         '<path d="M70,20 L80,20 L78,80 L72,80 Z" fill="blue"/><path d="M70,90 L80,90 L80,100 L70,100 Z" fill="blue"/></svg>',
     ]),
+    # one and the same outline at one and the same place in two glyphs, filled by a bounding-box radial gradient on a
+    # non-square shape (the gradient keeps a wrapping transform; the reuse transform is the identity)
+    ("same-shape-same-place-gradient", ["glyf_colr_1", "picosvg"], 0.1, [
+        SVG_HEAD + '<defs><radialGradient id="g"><stop offset="0" stop-color="#ffff00"/><stop offset="1" stop-color="#ff0000"/></radialGradient></defs>'
+        '<ellipse cx="64" cy="80" rx="56" ry="24" fill="url(#g)"/></svg>',
+        SVG_HEAD + '<defs><radialGradient id="g"><stop offset="0" stop-color="#ffff00"/><stop offset="1" stop-color="#ff0000"/></radialGradient></defs>'
+        '<path d="M10,10 L40,10 L40,30 L10,30 Z" fill="#0000ff"/><ellipse cx="64" cy="80" rx="56" ry="24" fill="url(#g)"/></svg>',
+    ]),
+    # rectangles of different aspect ratio (one outline under a non-uniform scale) with diagonal gradients
+    ("diagonal-gradient-nonuniform-reuse", ["picosvg", "glyf_colr_1"], 0.1, [
+        SVG_HEAD + '<defs><linearGradient id="a" gradientUnits="userSpaceOnUse" x1="8" y1="8" x2="48" y2="28"><stop offset="0" stop-color="#ff0000"/><stop offset="1" stop-color="#0000ff"/></linearGradient>'
+        '<linearGradient id="b" gradientUnits="userSpaceOnUse" x1="8" y1="40" x2="118" y2="120"><stop offset="0" stop-color="#00ff00"/><stop offset="1" stop-color="#ff00ff"/></linearGradient></defs>'
+        '<rect x="8" y="8" width="40" height="20" fill="url(#a)"/><rect x="8" y="40" width="110" height="80" fill="url(#b)"/></svg>',
+    ]),
+    # the same gradient-filled disc in two glyphs, one of which also has a gradient of its own: with reuse the two share a
+    # document, without it they do not; every document must define the gradients it references, under ids of its own
+    ("shared-disc-with-gradient", ["picosvg", "glyf_colr_1"], 0.1, [
+        SVG_HEAD + '<defs><radialGradient id="face" gradientUnits="userSpaceOnUse" cx="64" cy="64" r="50"><stop offset="0" stop-color="#ffff00"/><stop offset="1" stop-color="#ff8800"/></radialGradient></defs>'
+        '<circle cx="64" cy="64" r="50" fill="url(#face)"/></svg>',
+        SVG_HEAD + '<defs><radialGradient id="face" gradientUnits="userSpaceOnUse" cx="64" cy="64" r="50"><stop offset="0" stop-color="#ffff00"/><stop offset="1" stop-color="#ff8800"/></radialGradient>'
+        '<linearGradient id="bg" gradientUnits="userSpaceOnUse" x1="4" y1="4" x2="124" y2="124"><stop offset="0" stop-color="#00aa00"/><stop offset="1" stop-color="#0000aa"/></linearGradient></defs>'
+        '<path d="M4,4 L124,4 L124,124 L4,124 Z" fill="url(#bg)"/><circle cx="64" cy="64" r="50" fill="url(#face)"/></svg>',
+    ]),
     # reused shapes that carry gradients with their own (non-uniform) gradientTransform, moved and scaled
     ("gradient-on-reused-shape", ["glyf_colr_1", "picosvg"], 0.1, [
         SVG_HEAD + '<defs><radialGradient id="a" gradientUnits="userSpaceOnUse" cx="40" cy="70" r="14" gradientTransform="matrix(1 0 0 0.5 0 35)">'
